@@ -212,7 +212,7 @@ def run(ctx) -> None:
                 tgt, val = n.targets[0].id, n.value
             if tgt and tgt in zero_fields and val is not None and any(isinstance(c, ast.Call) and unparse(c.func) == "int" for c in ast.walk(val)):
                 int_locals.add(tgt)
-        for ctxnode, operand in _bool_contexts(f.node):
+        for ctxnode, operand in shapes.bool_contexts(f.node):
             name = None
             if isinstance(operand, ast.Name) and operand.id in int_locals:
                 name = operand.id
@@ -226,23 +226,6 @@ def run(ctx) -> None:
                     f"(e.g. parse_version_info('0', 'WW').week_w becomes today's week, so '0' does not read back)",
                     loc=f.loc(ctxnode), witness={"version": "0", "pattern": "WW"}, what=f"{fq}: no truthiness test on {name}")
         ctx.ok("R7", f"{fq}: scanned boolean contexts for fields {sorted(zero_fields)}")
-
-
-def _bool_contexts(root: ast.AST) -> T.Iterator[T.Tuple[ast.AST, ast.AST]]:
-    """(context node, operand) for operands evaluated for truthiness."""
-    for n in ast.walk(root):
-        if isinstance(n, ast.BoolOp):
-            for v in n.values:
-                yield n, v
-        elif isinstance(n, (ast.If, ast.While, ast.IfExp)):
-            t = n.test
-            if not isinstance(t, (ast.BoolOp, ast.Compare)):
-                yield n, t.operand if isinstance(t, ast.UnaryOp) and isinstance(t.op, ast.Not) else t
-        elif isinstance(n, ast.UnaryOp) and isinstance(n.op, ast.Not):
-            yield n, n.operand
-        elif isinstance(n, ast.Call) and unparse(n.func) in ("any", "all") and n.args and isinstance(n.args[0], (ast.Tuple, ast.List, ast.Set)):
-            for e in n.args[0].elts:
-                yield n, e
 
 
 def _parse_defaults(ctx, pv) -> T.Dict[str, T.Any]:
